@@ -568,15 +568,38 @@ class TLSConnection(TLSRecordLayer):
         # different
         ext = serverHello.getExtension(ExtensionType.supported_versions)
         if ext and ext.version > (3, 3):
-            for result in self._clientTLS13Handshake(settings, session,
-                                                     clientHello,
-                                                     clientCertChain,
-                                                     privateKey,
-                                                     serverHello):
-                if result in (0, 1):
+            # the checks of the server's messages report a failure with
+            # an exception, the peer has to be told with an alert
+            try:
+                for result in self._clientTLS13Handshake(settings, session,
+                                                         clientHello,
+                                                         clientCertChain,
+                                                         privateKey,
+                                                         serverHello):
+                    if result in (0, 1):
+                        yield result
+                    else:
+                        break
+            except TLSIllegalParameterException as alert:
+                for result in self._sendError(
+                        AlertDescription.illegal_parameter,
+                        str(alert)):
                     yield result
-                else:
-                    break
+            except TLSDecryptionFailed as alert:
+                for result in self._sendError(
+                        AlertDescription.decrypt_error,
+                        str(alert)):
+                    yield result
+            except TLSDecodeError as alert:
+                for result in self._sendError(
+                        AlertDescription.decode_error,
+                        str(alert)):
+                    yield result
+            except BadCertificateError as alert:
+                for result in self._sendError(
+                        AlertDescription.bad_certificate,
+                        str(alert)):
+                    yield result
             if result in ["finished", "resumed_and_finished"]:
                 self._handshakeDone(resumed=(result == "resumed_and_finished"))
                 self._serverRandom = serverHello.random
